@@ -377,10 +377,25 @@ func (f changeFinder) walkSlice(from, to *value) bool {
 // paired first, left to right; the heuristic only decides about what lies
 // between two such pairs.
 func alignSlices(from, to *value) diff.EditScript {
+	// diff.Difference asks about the same pair of elements several times.
+	// Comparing two elements compares the lists nested inside them the same
+	// way, so without remembering the answers the cost doubles with every
+	// level of nesting.
+	type pair struct{ i, j int }
+	compared := make(map[pair]diff.Result)
+	compare := func(i, j int) diff.Result {
+		r, ok := compared[pair{i, j}]
+		if !ok {
+			r = compareNodes(from.Children[i], to.Children[j])
+			compared[pair{i, j}] = r
+		}
+		return r
+	}
+
 	var es diff.EditScript
 	gap := func(fi, fj, ti, tj int) {
 		es = append(es, diff.Difference(fj-fi, tj-ti, func(i, j int) diff.Result {
-			return compareNodes(from.Children[fi+i], to.Children[ti+j])
+			return compare(fi+i, ti+j)
 		})...)
 	}
 
@@ -392,7 +407,7 @@ func alignSlices(from, to *value) diff.EditScript {
 	fi, ti := 0, 0 // start of the current gap
 	for i, j := 0, 0; i < from.Len(); i++ {
 		for k := j; k < to.Len() && k < j+lookahead; k++ {
-			if compareNodes(from.Children[i], to.Children[k]).Equal() {
+			if compare(i, k).Equal() {
 				gap(fi, i, ti, k)
 				es = append(es, diff.Identity)
 				fi, ti = i+1, k+1
@@ -448,14 +463,20 @@ func (c *nodeComparer) Walk(from, to *value) {
 
 	case reflect.Slice:
 		results := make([][]diff.Result, from.Len())
+		known := make([][]bool, from.Len())
 		for i := range results {
 			results[i] = make([]diff.Result, to.Len())
+			known[i] = make([]bool, to.Len())
 		}
 
+		// diff.Difference asks about the same pair several times: compare
+		// each pair once.
 		es := diff.Difference(from.Len(), to.Len(), func(i, j int) diff.Result {
-			result := compareNodes(from.Children[i], to.Children[j])
-			results[i][j] = result
-			return result
+			if !known[i][j] {
+				results[i][j] = compareNodes(from.Children[i], to.Children[j])
+				known[i][j] = true
+			}
+			return results[i][j]
 		})
 
 		var i, j int
